@@ -519,7 +519,7 @@ func main() {
 		out.Close(a.Stats)
 		return
 	}
-	nh := 2200
+	nh := 1600
 	if a.Tier == "thorough" {
 		nh = 30000
 	}
